@@ -191,10 +191,11 @@ class C12(Check):
         forms = self._forms(case)
         # ---- idempotence
         p = forms["parsed"]
+        before = copy.deepcopy(p)
         again = guard("parse-parsed", parse_schema, p)
         labels.add("idempotent")
-        if again != p:
-            raise Violation("parse-not-idempotent", f"parse_schema(parsed) differs from parsed: {strip_markers(again)!r:.300} vs {strip_markers(p)!r:.300}")
+        if again != before or p != before:
+            raise Violation("parse-not-idempotent", f"parse_schema(parsed) differs from parsed (or changed its argument): {strip_markers(again)!r:.300} vs {strip_markers(before)!r:.300}")
         if again is p:
             labels.add("idempotent:identity")
         if "piecewise" in forms:
@@ -208,8 +209,9 @@ class C12(Check):
                 labels.add("excluded:piecewise-top-not-record")
                 del forms["piecewise"]
             else:
+                before = copy.deepcopy(pw)
                 again = guard("parse-parsed", parse_schema, pw)
-                if again != pw:
+                if again != before or pw != before:
                     raise Violation("parse-not-idempotent", "parse_schema(piecewise parsed) differs")
         json_ok = self._json_supported(node, table)
         ops = self._operations(case, node, table, json_ok, labels)
@@ -317,7 +319,25 @@ class C12(Check):
             # the reader is given the same schema form as reader schema: this keeps the read independent of F-PIECEWISE-HEADER
             return list(fastavro.reader(fo))
 
+        def cont_read_form_as_reader(schema):
+            fo = io.BytesIO()
+            fastavro.writer(fo, copy.deepcopy(strip_markers(case["schema"])), data, sync_marker=MARK)
+            fo.seek(0)
+            # file written from the raw schema (its header is self-contained); the form under test is the READER schema
+            return list(fastavro.reader(fo, reader_schema=schema))
+
+        def cont_header_schema(schema):
+            fo = io.BytesIO()
+            fastavro.writer(fo, schema, data, sync_marker=MARK)
+            pf = RC.parse(fo.getvalue())
+            hn, ht = M.resolve(json.loads(pf["meta"]["avro.schema"].decode("utf-8")))
+            return canon.canonical(hn)
+
         ops.append(("writer-blocks", cont_blocks))
+        ops.append(("reader(raw file, form as reader schema)", cont_read_form_as_reader))
+        if case.get("pieces") is None:
+            # (piecewise: F-PIECEWISE-HEADER, probe only)
+            ops.append(("writer-header-schema-canonical-form", cont_header_schema))
         if case.get("pieces") is None:
             ops.append(("writer+reader", cont_read))
         if json_ok:
